@@ -154,6 +154,26 @@ def runOps (c : Codec) (e : Enc) : List Op → Option Enc
     | none => none
     | some e' => runOps c e' rest
 
+/-- the operations between the splits -/
+def splitOps : List Op → List (List Op)
+  | [] => [[]]
+  | .split :: r => [] :: splitOps r
+  | o :: r => match splitOps r with
+    | [] => [[o]]
+    | sg :: ss => (o :: sg) :: ss
+
+/-- the operations of a list of segments, a split in front of each -/
+def joinSegs : List (List Op) → List Op
+  | [] => []
+  | sg :: ss => .split :: sg ++ joinSegs ss
+
+/-- `read_values` with several threads: one encoder per segment, appended in order -/
+def runSegs (c : Codec) (tps : List SigType) (ops : List Op) : Option Enc :=
+  match (splitOps ops).mapM (runOps c (newEnc tps)) with
+  | some (e0 :: rest) => appendAll c e0 rest
+  | _ => none
+
+
 def timesOf : List Op → List Nat
   | [] => []
   | .time t :: rest => t :: timesOf rest
